@@ -406,7 +406,7 @@ static int drv_stats(int argc, char** argv) {
                   rec["reply"] = read_all(fd, 500);
                   ::close(fd);
                 } else {
-                  rec["reply"] = read_all(fd, 4000);
+                  rec["reply"] = read_all(fd, 20000);
                   ::close(fd);
                 }
               }
